@@ -82,7 +82,8 @@ def path(eng, acc, task):
     except SymDivisionByZero:
         acc.inc('zero_state_paths')      # trailing factor T == 0: the state is zero on this path (outside the property)
         return
-    except (AssertionError, ValueError, IndexError, KeyError, TypeError, ZeroDivisionError) as e:
+    except Exception as e:
+        reraise_internal(e)
         import traceback
         tb = traceback.extract_tb(e.__traceback__)[-1]
         # the state is zero on this path iff the truncation routine took its norm(s) == 0 branch somewhere
